@@ -8,9 +8,17 @@ package rawconfigtrafficcontroller
 // test-only TrafficGate kinds.  Same lifecycle model as part (a)
 // (harness/supervisor/c20_rig_test.go); a Go test file cannot be shared between two
 // packages, hence the copy.
+//
+// Unlike part (a) the barrier after a snapshot does not use a sentinel object's callback: a
+// sentinel living in the namespace under test shares the fate of the objects under test
+// (if the controller loses track of the namespace, the sentinel's callback never comes and
+// nothing could be judged).  See c20Rig.apply / quiesce.  The former sentinel gate survives
+// as an optional, fully judged *cohabitant*.
 
 import (
+	"bytes"
 	"fmt"
+	"runtime"
 	"sort"
 	"strings"
 	"sync"
@@ -37,10 +45,13 @@ const (
 
 var (
 	c20Names = []string{"obj-a", "obj-b", "obj-c"}
-	// index 0 = absent; 1 = real Pipeline; 2, 3 = test-only traffic gates
-	c20Kinds    = []string{"", pipeline.Kind, c20KindGateA, c20KindGateB}
-	c20KindChar = []string{"-", "P", "GA", "GB"}
+	// index 0 = absent; 1 = real Pipeline; 2, 3 = test-only traffic gates; 4 = the cohabitant
+	// gate (only ever used for the name c20SentinelName, never generated for c20Names)
+	c20Kinds    = []string{"", pipeline.Kind, c20KindGateA, c20KindGateB, c20KindSentinel}
+	c20KindChar = []string{"-", "P", "GA", "GB", "S"}
 )
+
+const c20KindIdxSentinel = 4
 
 func c20Category(kind int) string {
 	if kind == 1 {
@@ -100,10 +111,9 @@ type c20Recorder struct {
 	perName  map[string]int
 	panicAt  map[string]map[int]bool
 	nextID   int
-	sentinel chan int
 }
 
-var c20rec = &c20Recorder{sentinel: make(chan int, 1024)}
+var c20rec = &c20Recorder{}
 
 func (rec *c20Recorder) reset() {
 	rec.mu.Lock()
@@ -113,14 +123,6 @@ func (rec *c20Recorder) reset() {
 	rec.perName = map[string]int{}
 	rec.panicAt = nil
 	rec.nextID = 0
-	for {
-		select {
-		case <-rec.sentinel:
-			continue
-		default:
-		}
-		break
-	}
 }
 
 func (rec *c20Recorder) setScript(panicAt map[string]map[int]bool) {
@@ -231,9 +233,13 @@ func (c *c20GateB) Inherit(s *supervisor.Spec, prev supervisor.Object, _ context
 }
 func (c *c20GateB) Close() { c20GateClose(c20KindGateB, &c.c20Base) }
 
-// c20SentinelGate is the barrier object (a traffic gate, so that it travels through the
-// RawConfigTrafficController's event loop).
-type c20SentinelGate struct{}
+// c20SentinelGate is the *cohabitant*: in the cases that run with one, a traffic gate named
+// c20SentinelName lives in the same namespace as the objects under test and changes its spec
+// with every snapshot.  It is an ordinary recorded object, judged by the same lifecycle model
+// (one Init when the rig starts, exactly one Inherit from its live generation per snapshot,
+// always present in the live set).  It is NOT the barrier: the barrier (c20Rig.quiesce) does
+// not depend on any lifecycle callback being delivered.
+type c20SentinelGate struct{ c20Base }
 
 func (c *c20SentinelGate) Category() supervisor.ObjectCategory { return supervisor.CategoryTrafficGate }
 func (c *c20SentinelGate) Kind() string                        { return c20KindSentinel }
@@ -242,12 +248,12 @@ func (c *c20SentinelGate) Status() *supervisor.Status {
 	return &supervisor.Status{ObjectStatus: struct{}{}}
 }
 func (c *c20SentinelGate) Init(s *supervisor.Spec, _ context.MuxMapper) {
-	c20rec.sentinel <- s.ObjectSpec().(*c20ObjSpec).Variant
+	c20GateInit(c20KindSentinel, &c.c20Base, s)
 }
-func (c *c20SentinelGate) Inherit(s *supervisor.Spec, _ supervisor.Object, _ context.MuxMapper) {
-	c20rec.sentinel <- s.ObjectSpec().(*c20ObjSpec).Variant
+func (c *c20SentinelGate) Inherit(s *supervisor.Spec, prev supervisor.Object, _ context.MuxMapper) {
+	c20GateInherit(c20KindSentinel, &c.c20Base, s, prev)
 }
-func (c *c20SentinelGate) Close() {}
+func (c *c20SentinelGate) Close() { c20GateClose(c20KindSentinel, &c.c20Base) }
 
 // --- recording filter: the observable of a real Pipeline's lifecycle.
 // Pipeline.Init   => rec.Init
@@ -361,11 +367,17 @@ type c20Rig struct {
 	rctc   *RawConfigTrafficController
 	ch     chan map[string]string
 	prefix string
-	seq    int
+	// cohabit: a c20SentinelGate lives in the namespace next to the objects under test and
+	// changes its spec (variant = seq) in every snapshot.  Without it the namespace holds
+	// exactly the objects of the snapshot (so a delete can leave pipelines only, gates only
+	// or nothing).
+	cohabit bool
+	seq     int
+	polls   int64 // goroutine dumps taken by quiesce (evidence only)
 }
 
-func c20NewRig(home string) (*c20Rig, bool) {
-	rig := &c20Rig{ch: make(chan map[string]string)}
+func c20NewRig(home string, cohabit bool) (*c20Rig, bool) {
+	rig := &c20Rig{ch: make(chan map[string]string), cohabit: cohabit}
 	layout := &cluster.Layout{}
 	rig.prefix = layout.ConfigObjectPrefix()
 	syncer := clustertest.NewMockedSyncer()
@@ -381,11 +393,15 @@ func c20NewRig(home string) (*c20Rig, bool) {
 		return rig, false
 	}
 	rig.rctc = rig.super.MustGetSystemController(Kind).Instance().(*RawConfigTrafficController)
-	// sentinel created alone, before any observed object exists (see part (a))
-	if !rig.apply(make(c20Snapshot, len(c20Names))) {
-		return rig, false
-	}
 	return rig, true
+}
+
+// sentinelState is what the cohabitant has to be after the snapshot pushed last.
+func (rig *c20Rig) sentinelState() c20State {
+	if !rig.cohabit {
+		return c20State{}
+	}
+	return c20State{Kind: c20KindIdxSentinel, Variant: rig.seq}
 }
 
 func (rig *c20Rig) config(snap c20Snapshot) map[string]string {
@@ -395,7 +411,9 @@ func (rig *c20Rig) config(snap c20Snapshot) map[string]string {
 			m[rig.prefix+c20Names[i]] = c20YAML(c20Names[i], st.Kind, st.Variant)
 		}
 	}
-	m[rig.prefix+c20SentinelName] = fmt.Sprintf("name: %s\nkind: %s\nvariant: %d\n", c20SentinelName, c20KindSentinel, rig.seq)
+	if rig.cohabit {
+		m[rig.prefix+c20SentinelName] = c20YAML(c20SentinelName, c20KindIdxSentinel, rig.seq)
+	}
 	return m
 }
 
@@ -408,26 +426,118 @@ func (rig *c20Rig) send(m map[string]string) bool {
 	}
 }
 
-// apply pushes the snapshot, then the same snapshot with a changed sentinel, and waits for
-// the sentinel's callback: the registry and the RawConfigTrafficController each handle one
-// snapshot/event at a time, so every callback of the first push has returned by then.
+// apply pushes the snapshot (with the cohabitant's spec changed, if there is one) and waits
+// until it has been reconciled completely.  The barrier does not depend on any lifecycle
+// callback being delivered, i.e. not on the behaviour under test being correct:
+//
+//  1. the snapshot is pushed three times (the 2nd and 3rd push are identical to the first, as
+//     the periodic re-sync of a real syncer delivers them).  The syncer channel is unbuffered
+//     and ObjectRegistry.run handles one snapshot at a time, so when the 3rd push has been
+//     accepted, applyConfig of the 1st and of the 2nd have returned: every watcher event they
+//     produce is in the watcher's channel or already taken out of it.  (The 3rd one, which may
+//     still be running, is a repetition of a snapshot already applied twice.)
+//  2. quiesce: the controller's event channel is empty and its run loop is parked in its
+//     select - every event taken out of the channel has been handled to the end.
+//
+// Anything a repeated identical snapshot triggers is recorded with this snapshot and judged
+// (the property asks for no call at all then).
 func (rig *c20Rig) apply(snap c20Snapshot) bool {
-	if !rig.send(rig.config(snap)) {
-		return false
+	if rig.cohabit {
+		rig.seq++
 	}
-	rig.seq++
-	if !rig.send(rig.config(snap)) {
-		return false
+	m := rig.config(snap)
+	for i := 0; i < 3; i++ {
+		if !rig.send(m) {
+			return false
+		}
 	}
-	deadline := time.After(c20Watchdog)
+	return rig.quiesce()
+}
+
+var (
+	c20StackBuf  = make([]byte, 1<<20)
+	c20RunFrame  = []byte("rawconfigtrafficcontroller.(*RawConfigTrafficController).run(")
+	c20GoroutSep = []byte("\n\n")
+)
+
+// c20LoopIdle takes a goroutine dump (runtime.Stack stops the world: a consistent cut) and
+// reports whether exactly one RawConfigTrafficController.run goroutine exists and is parked
+// in run's own select (state "select", innermost non-runtime frame = run, i.e. not inside
+// handleEvent).  The loops of earlier rigs have had their done channel closed and go away;
+// while one of them is still around the answer is "not idle yet".
+func c20LoopIdle() bool {
+	var dump []byte
 	for {
-		select {
-		case n := <-c20rec.sentinel:
-			if n == rig.seq {
+		n := runtime.Stack(c20StackBuf, true)
+		if n < len(c20StackBuf) {
+			dump = c20StackBuf[:n]
+			break
+		}
+		c20StackBuf = make([]byte, 2*len(c20StackBuf))
+	}
+	loops, parked := 0, 0
+	for _, g := range bytes.Split(dump, c20GoroutSep) {
+		if !bytes.Contains(g, c20RunFrame) {
+			continue
+		}
+		lines := bytes.Split(g, []byte("\n"))
+		// a goroutine *created by* run would mention it in its last lines only
+		isLoop := false
+		for _, l := range lines[1:] {
+			if bytes.Contains(l, c20RunFrame) && !bytes.HasPrefix(l, []byte("created by ")) {
+				isLoop = true
+			}
+		}
+		if !isLoop {
+			continue
+		}
+		loops++
+		// header: "goroutine 57 [select]:" or "goroutine 57 [select, 2 minutes]:"
+		hdr := lines[0]
+		lb, rb := bytes.IndexByte(hdr, '['), bytes.IndexByte(hdr, ']')
+		if lb < 0 || rb < lb {
+			continue
+		}
+		state := hdr[lb+1 : rb]
+		if c := bytes.IndexByte(state, ','); c >= 0 {
+			state = state[:c]
+		}
+		if string(state) != "select" {
+			continue
+		}
+		for _, l := range lines[1:] {
+			if bytes.HasPrefix(l, []byte("\t")) || bytes.HasPrefix(l, []byte("runtime.")) {
+				continue
+			}
+			if bytes.Contains(l, c20RunFrame) {
+				parked++
+			}
+			break
+		}
+	}
+	return loops == 1 && parked == 1
+}
+
+// quiesce polls (no verdict depends on how long it takes; the watchdog firing means that
+// nothing can be established: inconclusive) until the controller has nothing queued and
+// nothing in progress.  No new event can be queued meanwhile, see apply.
+func (rig *c20Rig) quiesce() bool {
+	deadline := time.Now().Add(c20Watchdog)
+	events := rig.rctc.watcher.Watch()
+	for spin := 0; ; spin++ {
+		if len(events) == 0 {
+			rig.polls++
+			if c20LoopIdle() && len(events) == 0 {
 				return true
 			}
-		case <-deadline:
+		}
+		if time.Now().After(deadline) {
 			return false
+		}
+		if spin < 50 {
+			runtime.Gosched()
+		} else {
+			time.Sleep(200 * time.Microsecond)
 		}
 	}
 }
@@ -459,6 +569,7 @@ const (
 
 type c20Model struct {
 	prev     c20Snapshot
+	prevSent c20State // the cohabitant's state after the previous snapshot (Kind 0: none)
 	live     map[string]*c20Base
 	state    map[*c20Base]int
 	diverged map[string]string // name -> signature of the first mismatch on that name in this sequence
@@ -584,7 +695,11 @@ func c20FoldPipelineInherit(evs []c20Event) []c20Event {
 	return out
 }
 
-func (m *c20Model) consume(next c20Snapshot, events []c20Event) (mism []c20Mismatch, transitions []string, panickedNames map[string]bool) {
+// consume judges the callbacks recorded for one snapshot.  sent is the state the cohabitant
+// gate must have after this snapshot (Kind 0 when the case runs without one); it is judged
+// like every other name but does not appear in the returned transitions (coverage is about
+// the generated names).
+func (m *c20Model) consume(next c20Snapshot, sent c20State, events []c20Event) (mism []c20Mismatch, transitions []string, panickedNames map[string]bool) {
 	byName := map[string][]c20Event{}
 	panickedNames = map[string]bool{}
 	for _, e := range events {
@@ -594,14 +709,12 @@ func (m *c20Model) consume(next c20Snapshot, events []c20Event) (mism []c20Misma
 		}
 	}
 	known := map[string]bool{}
-	for i := range next {
-		name := c20Names[i]
+	judge := func(name string, from, to c20State) string {
 		known[name] = true
-		tr := c20Transition(m.prev[i], next[i])
-		transitions = append(transitions, tr)
+		tr := c20Transition(from, to)
 		var got []string
 		for _, e := range c20FoldPipelineInherit(byName[name]) {
-			got = append(got, m.shape(name, next[i], e))
+			got = append(got, m.shape(name, to, e))
 		}
 		gotS := strings.Join(got, " ")
 		want := c20Want(tr)
@@ -616,16 +729,20 @@ func (m *c20Model) consume(next c20Snapshot, events []c20Event) (mism []c20Misma
 			for _, e := range byName[name] {
 				evs = append(evs, e.String())
 			}
+			role := "generated name"
+			if name == c20SentinelName {
+				role = "cohabitant gate (lives in the same namespace, its spec changes with every snapshot)"
+			}
 			mism = append(mism, c20Mismatch{
 				Name: name,
 				Sig:  fmt.Sprintf("lifecycle:%s:got=[%s]:want=[%s]", tr, gotS, want[0]),
 				Detail: map[string]interface{}{
-					"name": name, "transition": fmt.Sprintf("%s -> %s", m.prev[i], next[i]), "callbacks_seen": evs,
+					"name": name, "role": role, "transition": fmt.Sprintf("%s -> %s", from, to), "callbacks_seen": evs,
 					"panic_scripted_on_this_name_in_this_snapshot": panickedNames[name],
 				},
 			})
 		}
-		if next[i].Kind == 0 {
+		if to.Kind == 0 {
 			m.live[name] = nil
 		}
 		for _, e := range byName[name] {
@@ -633,6 +750,13 @@ func (m *c20Model) consume(next c20Snapshot, events []c20Event) (mism []c20Misma
 				m.unjudged[name] = true
 			}
 		}
+		return tr
+	}
+	for i := range next {
+		transitions = append(transitions, judge(c20Names[i], m.prev[i], next[i]))
+	}
+	if sent.Kind != 0 || m.prevSent.Kind != 0 {
+		judge(c20SentinelName, m.prevSent, sent)
 	}
 	for name, evs := range byName {
 		if known[name] {
@@ -650,6 +774,7 @@ func (m *c20Model) consume(next c20Snapshot, events []c20Event) (mism []c20Misma
 		})
 	}
 	m.prev = append(c20Snapshot(nil), next...)
+	m.prevSent = sent
 	return
 }
 
@@ -734,9 +859,6 @@ func c20ViewOf(entities []*supervisor.ObjectEntity) (map[string]c20View, []strin
 	var dup []string
 	for _, e := range entities {
 		name := e.Spec().Name()
-		if name == c20SentinelName {
-			continue
-		}
 		v := c20View{Kind: e.Spec().Kind()}
 		switch os := e.Spec().ObjectSpec().(type) {
 		case *c20ObjSpec:
@@ -774,7 +896,12 @@ func (rig *c20Rig) liveViews() (map[string]map[string]c20View, []string) {
 	return map[string]map[string]c20View{"trafficcontroller": tcView, "watcher": wView}, dup
 }
 
-func (m *c20Model) checkLiveSet(snap c20Snapshot, views map[string]map[string]c20View, dup []string) (mism []c20Mismatch) {
+func (m *c20Model) checkLiveSet(snap c20Snapshot, sent c20State, views map[string]map[string]c20View, dup []string) (mism []c20Mismatch) {
+	names := append([]string(nil), c20Names[:len(snap)]...)
+	states := append([]c20State(nil), snap...)
+	if sent.Kind != 0 {
+		names, states = append(names, c20SentinelName), append(states, sent)
+	}
 	for _, name := range dup {
 		if m.unjudged[name] {
 			continue
@@ -793,8 +920,8 @@ func (m *c20Model) checkLiveSet(snap c20Snapshot, views map[string]map[string]c2
 	for _, vn := range viewNames {
 		view := views[vn]
 		seen := map[string]bool{}
-		for i, st := range snap {
-			name := c20Names[i]
+		for i, st := range states {
+			name := names[i]
 			seen[name] = true
 			got, present := view[name]
 			bad := ""
